@@ -464,6 +464,23 @@ class _Expr(ast.NodeTransformer):
         node.ifs = ifs
         return node
 
+    def visit_BoolOp(self, node: ast.BoolOp) -> ast.AST:
+        # E12 a constant operand in front decides or drops out: `False and X` is False, `True and X` is X,
+        #     `True or X` is True, `False or X` is X (operands after a deciding constant are never evaluated)
+        self.generic_visit(node)
+        vals = list(node.values)
+        is_and = isinstance(node.op, ast.And)
+        while len(vals) > 1 and isinstance(vals[0], ast.Constant) and isinstance(vals[0].value, bool):
+            if vals[0].value is (not is_and):
+                self.changed = True
+                return _loc(ast.Constant(value=vals[0].value), node)
+            vals = vals[1:]
+            self.changed = True
+        if len(vals) == 1:
+            return vals[0]
+        node.values = vals
+        return node
+
     def visit_Compare(self, node: ast.Compare) -> ast.AST:
         self.generic_visit(node)
         if len(node.ops) == 1 and isinstance(node.ops[0], (ast.Is, ast.IsNot)) and isinstance(node.left, ast.Constant) and isinstance(
@@ -873,6 +890,11 @@ class Canon:
                 touched.add(base_.id if isinstance(base_, ast.Name) else (base_.attr if isinstance(base_, ast.Attribute) else ""))
 
         def dict_table(val: Optional[ast.expr]) -> bool:
+            if isinstance(val, ast.Dict) and 1 <= len(val.keys) <= 16 and all(  # noqa: PLR2004
+                    isinstance(k, ast.Name) and k.id.isupper() and counts.get(k.id, 0) <= 1 for k in val.keys):
+                # keyed by named constants (the token kinds): one entry per name; that two names do not stand for one
+                # value is the naming convention of this package's constant modules, which R13/R17 check separately
+                return len({k.id for k in val.keys}) == len(val.keys)  # type: ignore[union-attr]
             return (isinstance(val, ast.Dict) and 1 <= len(val.keys) <= 16 and all(
                 isinstance(k, ast.Constant) and isinstance(k.value, (str, int)) and not isinstance(k.value, bool) for k in val.keys)
                 and len({k.value for k in val.keys}) == len(val.keys))  # type: ignore[union-attr]
@@ -1034,6 +1056,15 @@ class Canon:
         r37 = self._dict_dispatch(s, rest)
         if r37 is not None:
             return r37
+        r40 = self._table_rows(s)
+        if r40 is not None:
+            return r40, 0
+        r38 = self._bool_pick(s, rest)
+        if r38 is not None:
+            return r38
+        r39 = self._conditional_callee(s)
+        if r39 is not None:
+            return r39, 0
         if isinstance(s, ast.Assign) and len(s.targets) == 1 and isinstance(s.targets[0], ast.Name) and isinstance(s.value, ast.Name) \
                 and s.value.id == s.targets[0].id:
             return [], 0  # `x = x`
@@ -1823,6 +1854,117 @@ class Canon:
             out = chain
         return out + tail, consumed
 
+    # -- S40 the rows of a keyed table
+    def _table_rows(self, s: ast.stmt) -> Optional[List[ast.stmt]]:
+        """`if k in TABLE: for row in TABLE[k]: B` [else: E]  ->  `if k == K1: for row in V1: B` elif ... [else: E]
+        (TABLE a dict display with literal keys that nothing writes to)."""
+        if not (isinstance(s, ast.If) and isinstance(s.test, ast.Compare) and len(s.test.ops) == 1 and isinstance(s.test.ops[0], ast.In)
+                and _simple(s.test.left) and s.body and isinstance(s.body[0], ast.For) and not s.body[0].orelse):
+            return None
+        table = self._dict_table_of(s.test.comparators[0])
+        loop = s.body[0]
+        after = s.body[1:]
+        if table is None or not table.keys or not (isinstance(loop.iter, ast.Subscript)
+                                                   and ast.dump(loop.iter.slice) == ast.dump(s.test.left)
+                                                   and ast.dump(loop.iter.value) == ast.dump(s.test.comparators[0])):
+            return None
+        if after and not (len(after) == 1 and isinstance(after[0], (ast.Continue, ast.Break, ast.Return))):
+            return None
+        if any(k_ is None or not _simple(k_) for k_ in table.keys):
+            return None
+        if len({ast.dump(k_) for k_ in table.keys}) != len(table.keys):
+            return None
+        chain: List[ast.stmt] = list(s.orelse)
+        for k_, v_ in reversed(list(zip(table.keys, table.values))):
+            test = _loc(ast.Compare(left=copy.deepcopy(s.test.left), ops=[ast.Eq()], comparators=[copy.deepcopy(k_)]), s)
+            new_loop = _loc(ast.For(target=copy.deepcopy(loop.target), iter=copy.deepcopy(v_), body=[copy.deepcopy(b) for b in loop.body],
+                                    orelse=[], type_comment=None), loop)
+            chain = [_loc(ast.If(test=test, body=[new_loop] + [copy.deepcopy(a) for a in after], orelse=chain), s)]
+        return chain
+
+    # -- S38 a two-way choice written as a display keyed by a truth value
+    @staticmethod
+    def _is_bool_expr(e: ast.expr) -> bool:
+        if isinstance(e, ast.Call) and isinstance(e.func, ast.Name) and e.func.id in ("isinstance", "issubclass", "callable", "hasattr") and not e.keywords:
+            return all(_simple(a) or (isinstance(a, ast.Tuple) and all(_simple(y) for y in a.elts)) for a in e.args)
+        if isinstance(e, ast.UnaryOp) and isinstance(e.op, ast.Not):
+            return not any(isinstance(n, (ast.Call, ast.Await, ast.NamedExpr)) for n in ast.walk(e.operand)) or Canon._is_bool_expr(e.operand)
+        if isinstance(e, ast.Compare) and len(e.ops) == 1 and isinstance(e.ops[0], (ast.Is, ast.IsNot)):
+            return _simple(e.left) and _simple(e.comparators[0])
+        return False
+
+    def _bool_pick(self, s: ast.stmt, rest: List[ast.stmt]) -> Optional[Tuple[List[ast.stmt], int]]:
+        """`t = {True: A, False: B}` ; ... `t[c]` ... (the only use, c a truth value)  ->  `(A if c else B)`"""
+        name = _plain_target(s) if isinstance(s, ast.Assign) else None
+        if name is None or not isinstance(s.value, ast.Dict) or len(s.value.keys) != 2 or not rest:  # type: ignore[attr-defined]
+            return None
+        d = s.value  # type: ignore[attr-defined]
+        by_key = {}
+        for k_, v_ in zip(d.keys, d.values):
+            if not (isinstance(k_, ast.Constant) and isinstance(k_.value, bool)) or not _simple(v_):
+                return None
+            by_key[k_.value] = v_
+        if set(by_key) != {True, False}:
+            return None
+        facts = NameFacts(self.fn)
+        if facts.stores.get(name, 0) != 1 or facts.loads.get(name, 0) != 1 or name in facts.nested_refs or name in facts.special:
+            return None
+        stored = set(facts.stores)
+        if any(isinstance(n, ast.Name) and n.id in stored for v_ in by_key.values() for n in ast.walk(v_)):
+            return None
+        hits = []
+        for x in rest:
+            for n in ast.walk(x):
+                if isinstance(n, ast.Subscript) and isinstance(n.value, ast.Name) and n.value.id == name and isinstance(n.ctx, ast.Load):
+                    hits.append(n)
+        if len(hits) != 1 or not self._is_bool_expr(hits[0].slice):
+            return None
+        hit = hits[0]
+
+        class _R(ast.NodeTransformer):
+            def visit_Subscript(self, node: ast.Subscript) -> ast.AST:
+                if node is hit:
+                    return _loc(ast.IfExp(test=node.slice, body=copy.deepcopy(by_key[True]), orelse=copy.deepcopy(by_key[False])), node)
+                return self.generic_visit(node)
+
+        return [_R().visit(x) for x in rest], len(rest)
+
+    # -- S39 a call whose callee is a conditional expression
+    def _conditional_callee(self, s: ast.stmt) -> Optional[List[ast.stmt]]:
+        """`return (A if c else B)(args).m()`  ->  `if c: return A(args).m()` else: `return B(args).m()`
+        (the conditional is the first thing the statement evaluates, c is a truth value, A and B are simple)."""
+        if not isinstance(s, (ast.Return, ast.Assign, ast.Expr)) or s.value is None:
+            return None
+        if isinstance(s, ast.Assign) and _plain_target(s) is None:
+            return None
+        e = s.value
+        found = None
+        while True:
+            if isinstance(e, ast.Call):
+                if isinstance(e.func, ast.IfExp):
+                    found = e
+                    break
+                e = e.func
+            elif isinstance(e, ast.Attribute):
+                e = e.value
+            elif isinstance(e, ast.Await):
+                e = e.value
+            else:
+                return None
+        ie = found.func
+        if not (self._is_bool_expr(ie.test) and _simple(ie.body) and _simple(ie.orelse)):
+            return None
+
+        def with_callee(callee: ast.expr) -> ast.stmt:
+            new = copy.deepcopy(s)
+            for n in ast.walk(new):
+                if isinstance(n, ast.Call) and isinstance(n.func, ast.IfExp) and ast.dump(n.func) == ast.dump(ie):
+                    n.func = copy.deepcopy(callee)
+                    break
+            return new
+
+        return [_loc(ast.If(test=ie.test, body=[with_callee(ie.body)], orelse=[with_callee(ie.orelse)]), s)]
+
     # -- S12
     def _class_table(self, it: ast.expr) -> Optional[ast.expr]:
         cls = getattr(self, "current_class", None)
@@ -1969,8 +2111,15 @@ class Canon:
             if not all(isinstance(e, (ast.Tuple, ast.List)) and len(e.elts) == len(names) and all(_simple(y) for y in e.elts) for e in it.elts):
                 return None
             facts = NameFacts(self.fn)
+            if len(set(names)) != len(names):
+                return None
             for x in names:
-                if facts.loads.get(x, 0) != _all_loads(s, x) or facts.stores.get(x, 0) != 1 or x in facts.nested_refs:
+                # every use of x is inside a loop that binds it (several sibling loops may share the names)
+                loops_t = [n for n in _own_nodes(self.fn) if isinstance(n, (ast.For, ast.AsyncFor)) and isinstance(n.target, ast.Tuple)
+                           and any(isinstance(t, ast.Name) and t.id == x for t in n.target.elts)]
+                nested_t = any(a is not b and any(c is b for c in ast.walk(a)) for a in loops_t for b in loops_t)
+                if nested_t or facts.loads.get(x, 0) != sum(_all_loads(n, x) for n in loops_t) or facts.stores.get(x, 0) != len(loops_t) \
+                        or x in facts.nested_refs:
                     return None
             body = _unguard(s.body)
             if body is None or any(isinstance(n, (ast.Break, ast.Continue)) for b in body for n in ast.walk(b)):
